@@ -86,6 +86,12 @@ public:
     }
   }
 
+  /// Whether entry \a i of link \a ln was registered last
+  bool IsLastRegisteredEntry(const BasicLink& ln, int i) const {
+    return !brl_.empty() && &brl_.back().b_ == &ln
+        && brl_.back().ir_.end_ == i+1;
+  }
+
   /// Want Export?
   bool GetExport() const { return bts_.IsOpen(); }
 
@@ -307,6 +313,11 @@ private:
 inline void
 BasicLink::RegisterLinkIndexRange(LinkIndexRange bir)
 { value_presolver_.Add( { *this, bir } ); }
+
+/// Implement the query
+inline bool
+BasicLink::IsLastRegisteredEntry(int i) const
+{ return value_presolver_.IsLastRegisteredEntry(*this, i); }
 
 } // namespace pre
 
